@@ -81,7 +81,9 @@ def _generate_hot(rng):
             ops.append({"t": round(tc + rng.choice([0.5, 1.0, 3.0]), 6), "op": "register", "h": h, "svc": dict(s, port=s["port"] + 7)})
     elif kind == "update":
         s2 = dict(s, port=s["port"] + 1, props={"ver": "2"})
-        ops.append({"t": tc, "op": "update", "h": h, "svc": s2})
+        if rng.random() < 0.5:
+            s2["addrs"] = s["addrs"][:1] if len(s["addrs"]) > 1 and rng.random() < 0.5 else [f"10.77.0.{rng.randrange(1, 250)}"]
+        ops.append({"t": tc, "op": "update", "h": h, "svc": s2, "mutate": rng.random() < 0.4})
     else:
         ops.append({"t": tc, "op": "close", "h": h})
     if rng.random() < 0.75:
@@ -148,6 +150,8 @@ def generate(rng, tier):
             s2["props"] = {"ver": "2"}
             if r2.random() < 0.3:
                 s2["addrs"] = [f"10.77.{len(ops) % 250}.{r2.randrange(1, 250)}"]  # the host moved to another address
+            elif len(s["addrs"]) > 1 and r2.random() < 0.5:
+                s2["addrs"] = s["addrs"][:1]  # the host lost its IPv6 address
             # (not in the late flavour: a query answered with the old TXT less than a second before the update leaves
             # both generations cached - RFC 6762 10.2 - and after two minutes only the long-lived old one)
             if r2.random() < 0.25 and not late:
@@ -158,7 +162,8 @@ def generate(rng, tier):
             # the one with the longer TTL is the one left, whichever it is)
             tu = round(tdone + r2.choice([1.6, 2.0, 3.0, 8.0] if late else [0.1, 0.3, 1.6, 2.0, 3.0, 8.0]) +
                        r2.random() * r2.choice([0.1, 1.0]), 6)
-            ops.append({"t": tu, "op": "update", "h": h, "svc": s2})
+            # (some applications keep their ServiceInfo, change it in place and hand it in again)
+            ops.append({"t": tu, "op": "update", "h": h, "svc": s2, "mutate": r2.random() < 0.35})
             if r2.random() < 0.35 and not late:
                 # ... and back to the first version shortly afterwards (a state that flips: on, off, on)
                 ops.append({"t": round(tu + r2.choice([0.3, 0.8, 1.5, 3.0]), 6), "op": "update", "h": h, "svc": dict(s)})
